@@ -14,7 +14,8 @@ VALUES = "PQRS"
 
 
 def job(spec):
-    fn, category, a, b, nrows = spec      # fn: 'copy' (a=copy_from, b=copy_to) | 'replace' (a=column)
+    fn, category, a, b, nrows = spec[:5]  # fn: 'copy' (a=copy_from, b=copy_to) | 'replace' (a=column)
+    history = len(spec) > 5 and spec[5]   # a different edit of the same content precedes the call under test (purity across calls)
     sys.path.insert(0, "/verif")
     import copy as _copy
     import z3
@@ -50,6 +51,9 @@ def job(spec):
     TR.IoAdapterPy = FakeAdapter
 
     def run():
+        if history:
+            TR.copy_from_to(DOC_TEXT, "atom_site", "auth_asym_id", "id")
+            TR.replace_value(DOC_TEXT, "other", "val", "XY")
         captured.clear()
         if fn == "copy":
             out = TR.copy_from_to(DOC_TEXT, category, a, b)
@@ -58,7 +62,7 @@ def job(spec):
         return out, mapping, dict(captured)
     t0 = time.time()
     paths = eng.explore(run)
-    res = {"name": f"{fn}:{category}:{a}:{b}:{nrows}rows", "paths": len(paths), "verdicts": [], "reach": 0}
+    res = {"name": f"{fn}:{category}:{a}:{b}:{nrows}rows:history{int(bool(history))}", "paths": len(paths), "verdicts": [], "reach": 0}
 
     def same(x, y):
         """z3 formula: cell x equals cell y"""
@@ -72,7 +76,7 @@ def job(spec):
     def wit(m):
         if m is None:
             return None
-        return {"spec": list(spec), "cells": [[B.conc(c, m) for c in r] for r in cells], "other": [[B.conc(c, m) for c in r] for r in other]}
+        return {"spec": list(spec[:5]), "history": bool(history), "cells": [[B.conc(c, m) for c in r] for r in cells], "other": [[B.conc(c, m) for c in r] for r in other]}
     present = category == "atom_site" and a in ATTRS
     for path, out in paths:
         if isinstance(out, Exception):
@@ -290,6 +294,8 @@ class FakeAdapter:
         cap["data"] = data; cap["n"] = cap.get("n", 0) + 1; open(path, "w").write("WRITTEN"); return True
 TR.IoAdapterPy = FakeAdapter
 try:
+    if w.get("history"):
+        TR.copy_from_to(DOC, "atom_site", "auth_asym_id", "id"); TR.replace_value(DOC, "other", "val", "XY"); cap.clear()
     out = TR.copy_from_to(DOC, category, a, b) if fn == "copy" else TR.replace_value(DOC, category, a, "PQRS")
 except Exception as e:
     print("raised", type(e).__name__, e); sys.exit(1)
@@ -345,6 +351,8 @@ def run(rep, tier):
     if tier != "quick":
         specs.append(("lib", ("replace", "atom_site", "label_asym_id", None, 4)))
         specs.append(("lib", ("copy", "atom_site", "id", "new_item", 4)))
+    specs += [("lib", ("copy", "atom_site", "label_asym_id", "auth_asym_id", n, True)), ("lib", ("replace", "atom_site", "auth_asym_id", None, n, True)),
+              ("lib", ("copy", "atom_site", "label_asym_id", "new_item", n, True))]
     specs += [("main", "copy"), ("main", "replace")]
     results = pmap(_dispatch, specs)
     for (kind, sp), r in zip(specs, results):
